@@ -313,11 +313,14 @@ fn run_typed<F: Float>(case: &Case, viols: &mut Vec<Violation>) -> Counters {
     let x_feature_major: Array2<F> = Array2::from_shape_fn((d, n), |(j, i)| x[(i, j)]);
     let x_rev: Array2<F> = Array2::from_shape_fn((n, d), |(i, j)| x[(n - 1 - i, j)]);
     let x_big: Array2<F> = Array2::from_shape_fn((2 * n, d), |(i, j)| if i % 2 == 0 { x[(i / 2, j)] } else { F::nan() });
+    let x_frev: Array2<F> = Array2::from_shape_fn((n, d), |(i, j)| x[(i, d - 1 - j)]);
     let alt_layouts: Vec<(&str, ArrayView2<F>)> = vec![
         ("column_major_owned", x_f.view()),
         ("transposed_view_of_feature_major", x_feature_major.t()),
         ("reversed_view_of_reversed_copy", x_rev.slice(s![..;-1, ..])),
         ("every_second_row_of_poisoned_parent", x_big.slice(s![..;2, ..])),
+        // rows with stride -1: contiguous in memory order, not in logical order
+        ("reversed_feature_axis_view_of_feature_reversed_copy", x_frev.slice(s![.., ..;-1])),
     ];
     let mut clustered: Vec<Vec<Vec<f64>>> = Vec::new(); // matrices already handed to the clustering sweep
     for (kind, nn_name, nn) in kinds {
@@ -1169,7 +1172,7 @@ fn main() {
         "cases = (point set, float type, kernel method). Point sets: every subset of 2..5 (quick) / 2..6 (thorough) points of the 3x3 lattice, \
          the generic-position image of each (constant jitter table), the un-centred affine images offset + spacing x p of every 2..4-subset with (offset, spacing) in {(1e8,1) f64, (-1e6,0.5) f64, (1e3,0.125) f64+f32}, the empty record matrix, every multiset of 1..5 points of {0..4} on a line (duplicates up to 3x), \
          every subset of 2..5 / 2..6 of a pool of 7 three-feature points, and large sets above the neighbour-index leaf size of 16 (5x5 grid, its generic image, 20 points on a line in duplicate pairs, \
-         generic 3x3x3 cube; thorough also 6x6, generic 6x6 and 7x7 grids). Kernel methods Linear, Gaussian(0.5), Gaussian(2) (thorough also 0.125, 8), Polynomial(c in {0,1}, d in {1,2,3}) and Polynomial(1, 0.5 / 1.5 / 2.5), Polynomial(0.3, 2 / 1.5); f64 and f32; a fractional degree on a point set with some <x,y>+c < 0.01 is out of domain (counted). \
+         generic 3x3x3 cube, sub-unit copies of these scaled by 0.1 / 0.125, and 20 generic records with 4, 5, 6, 7, 9 features at scale 1 and 0.1 (+ 2/3/5-record prefixes of those); thorough also 6x6, generic 6x6 and 7x7 grids). Kernel methods Linear, Gaussian(0.5), Gaussian(2) (thorough also 0.125, 8), Polynomial(c in {0,1}, d in {1,2,3}) and Polynomial(1, 0.5 / 1.5 / 2.5), Polynomial(0.3, 2 / 1.5); f64 and f32; a fractional degree on a point set with some <x,y>+c < 0.01 is out of domain (counted). \
          Per case: Dense and Sparse(k) for EVERY 0<k<n with LinearSearch / KdTree / BallTree, owned kernel and view: every stored cell vs the reference kernel function, \
          pattern vs the brute-force k-nearest ranking, size/sum/column/diagonal/to_upper_triangle/dot(3 right-hand sides) vs the stored matrix, documented panics (k in {0,n,n+1}, dot shape, column index). \
          Clustering sweep on every kernel of a case with a distinct matrix (quick: f64 Gaussian, Linear, Polynomial(1,2); thorough: all methods, f64 and f32; large sets: generic Gaussian kernels, dense and k in {1,2,5}): \
@@ -1229,6 +1232,22 @@ fn main() {
         en::lattice_points(3, 3).iter().enumerate().map(|(i, p)| p.iter().enumerate().map(|(j, &v)| v as f64 * 0.75 + en::jitter(i, j)).collect()).collect(),
         3,
     ));
+    // sub-unit coordinate scales (squared vs plain distance confusions are invisible at scales >= 1)
+    let scaled = |p: &Vec<Vec<f64>>, s: f64| -> Vec<Vec<f64>> { p.iter().map(|r| r.iter().map(|v| v * s).collect()).collect() };
+    big.push(("grid5x5_generic_x0.1".into(), scaled(&grid(5, true), 0.1), 2));
+    big.push(("grid5x5_x0.125".into(), scaled(&grid(5, false), 0.125), 2));
+    big.push(("line20_duplicates_x0.125".into(), (0..20).map(|i| vec![(i / 2) as f64 * 0.0625]).collect(), 1));
+    let cube: Vec<Vec<f64>> = big[3].1.clone();
+    big.push(("cube3x3x3_generic_x0.1".into(), scaled(&cube, 0.1), 3));
+    // feature counts around the usual unrolling widths, 20 records (> leaf size) in generic position, unit and sub-unit scale
+    let hi = |d: usize, n: usize, s: f64| -> Vec<Vec<f64>> { (0..n).map(|i| (0..d).map(|j| (((i * (j + 2) + j * j + i / 3) % 5) as f64 + en::jitter(i, j)) * s).collect()).collect() };
+    for d in [4usize, 5, 6, 7, 9] {
+        big.push((format!("features{}_n20", d), hi(d, 20, 1.0), d));
+        big.push((format!("features{}_n20_x0.1", d), hi(d, 20, 0.1), d));
+        for n in [2usize, 3, 5] {
+            sets.push((format!("features{}_small", d), hi(d, n, 1.0), d));
+        }
+    }
     if ctx.thorough() {
         big.push(("grid6x6_generic".into(), grid(6, true), 2));
         big.push(("grid7x7_generic".into(), grid(7, true), 2));
@@ -1252,6 +1271,12 @@ fn main() {
     for (is_big, (fam, pts, d)) in sets.iter().map(|s| (false, s)).chain(big.iter().map(|s| (true, s))) {
         for f in ["f64", "f32"] {
             for (k, p1, p2) in &methods {
+                // the round-5 families (sub-unit scales, 4..9 features) probe the neighbour search, which does
+                // not depend on the kernel method: quick runs them with Linear and Gaussian(2) only
+                let round5 = is_big && (fam.contains("_x0.") || fam.starts_with("features"));
+                if round5 && ctx.quick() && !(*k == "linear" || (*k == "gaussian" && *p1 == 2.0)) {
+                    continue;
+                }
                 // clustering sweep: quick = f64 Gaussian kernels everywhere, plus Linear and Polynomial(1,2)
                 // (dissimilarities of either sign, floored similarities) on the small sets;
                 // thorough = every kernel method, f64 and f32
@@ -1268,7 +1293,8 @@ fn main() {
                     "lattice3x3_generic" => ctx.thorough() || np <= 4,
                     "lattice3x3" => np <= ctx.pick(3, 5),
                     "three_features" | "line_multiset" => ctx.thorough() || np <= 3,
-                    "grid5x5_generic" | "line20_duplicates" | "cube3x3x3_generic" => true,
+                    "grid5x5_generic" | "line20_duplicates" | "cube3x3x3_generic" | "features5_n20_x0.1" | "features7_n20" | "grid5x5_generic_x0.1" => true,
+                    f if f.ends_with("_small") => true,
                     _ => ctx.thorough() && np > 0,
                 };
                 cases.push(Case { family: fam.clone(), points: pts.clone(), dim: *d, float: f.into(), kernel: k.to_string(), p1: *p1, p2: *p2, cluster, layouts, builders: layouts || pts.len() <= 3, ks: None });
